@@ -197,7 +197,9 @@ func isDepthGuard(p *Program, f *ssa.Function) (bool, string) {
 		incr, fieldAddr = st, fa
 	})
 	if incr == nil {
-		return false, "no counter increment"
+		// the increment and the comparison may live in a small helper that f calls
+		// first thing (`p.enterLevel(t); defer p.leaveLevel()`)
+		return isHelperDepthGuard(p, f)
 	}
 	_, tn, fn := fieldOfAddr(fieldAddr)
 	// deferred decrement of the same field
@@ -311,6 +313,189 @@ func isDepthGuard(p *Program, f *ssa.Function) (bool, string) {
 		return false, "a call that follows the increment is not dominated by the depth comparison"
 	}
 	return true, tn + "." + fn
+}
+
+// counterIncrement finds `x.field = x.field + 1` in f.
+func counterIncrement(f *ssa.Function) (*ssa.Store, *ssa.FieldAddr) {
+	var incr *ssa.Store
+	var fieldAddr *ssa.FieldAddr
+	forEachInstr(f, func(ins ssa.Instruction) {
+		st, ok := ins.(*ssa.Store)
+		if !ok || incr != nil {
+			return
+		}
+		fa, ok := st.Addr.(*ssa.FieldAddr)
+		if !ok {
+			return
+		}
+		b, ok := st.Val.(*ssa.BinOp)
+		if !ok || b.Op != token.ADD {
+			return
+		}
+		if k, ok := constInt(b.Y); !ok || k != 1 {
+			return
+		}
+		u, ok := b.X.(*ssa.UnOp)
+		if !ok {
+			return
+		}
+		fa2, ok := u.X.(*ssa.FieldAddr)
+		if !ok || fa2.Field != fa.Field || !sameLoadChain(fa2.X, fa.X) {
+			return
+		}
+		incr, fieldAddr = st, fa
+	})
+	return incr, fieldAddr
+}
+
+// enterHelper recognises a helper that increments a counter field, compares it
+// with a constant and panics on the exceeding branch (so it only returns while
+// the counter is within the limit). Returns the counter's type and field.
+func enterHelper(h *ssa.Function) (string, string, bool) {
+	if h == nil || len(h.Blocks) == 0 || len(h.Blocks) > 6 {
+		return "", "", false
+	}
+	incr, fa := counterIncrement(h)
+	if incr == nil {
+		return "", "", false
+	}
+	_, tn, fn := fieldOfAddr(fa)
+	okGuard := false
+	forEachInstr(h, func(ins ssa.Instruction) {
+		iff, ok := ins.(*ssa.If)
+		if !ok {
+			return
+		}
+		cb, ok := condOf(iff)
+		if !ok {
+			return
+		}
+		isField := func(v ssa.Value) bool {
+			u, ok := v.(*ssa.UnOp)
+			if !ok {
+				return false
+			}
+			fa, ok := u.X.(*ssa.FieldAddr)
+			if !ok {
+				return false
+			}
+			_, tn2, fn2 := fieldOfAddr(fa)
+			return tn2 == tn && fn2 == fn
+		}
+		if !(isField(cb.X) && isConstOrGlobalConst(cb.Y)) && !(isField(cb.Y) && isConstOrGlobalConst(cb.X)) {
+			return
+		}
+		if !instrDominates(incr, iff) {
+			return
+		}
+		// one successor must end in a panic without any return below it
+		for _, s := range iff.Block().Succs {
+			panics, returns := false, false
+			for _, d := range h.Blocks {
+				if !s.Dominates(d) {
+					continue
+				}
+				switch d.Instrs[len(d.Instrs)-1].(type) {
+				case *ssa.Panic:
+					panics = true
+				case *ssa.Return:
+					returns = true
+				}
+			}
+			if panics && !returns {
+				okGuard = true
+			}
+		}
+	})
+	return tn, fn, okGuard
+}
+
+// isHelperDepthGuard: f calls an enterHelper before anything else that can
+// recurse, and defers the matching decrement before every later return.
+func isHelperDepthGuard(p *Program, f *ssa.Function) (bool, string) {
+	var enter *ssa.Call
+	var tn, fn string
+	forEachInstr(f, func(ins ssa.Instruction) {
+		call, ok := ins.(*ssa.Call)
+		if !ok || enter != nil {
+			return
+		}
+		cal := call.Call.StaticCallee()
+		if cal == nil || !p.InModule(cal) {
+			return
+		}
+		if t, n, ok := enterHelper(cal); ok {
+			enter, tn, fn = call, t, n
+		}
+	})
+	if enter == nil {
+		return false, "no counter increment"
+	}
+	var deferIns *ssa.Defer
+	forEachInstr(f, func(ins ssa.Instruction) {
+		d, ok := ins.(*ssa.Defer)
+		if !ok {
+			return
+		}
+		var h *ssa.Function
+		if mc, ok := d.Call.Value.(*ssa.MakeClosure); ok {
+			h = mc.Fn.(*ssa.Function)
+		} else if sc := d.Call.StaticCallee(); sc != nil {
+			h = sc
+		}
+		if h == nil {
+			return
+		}
+		forEachInstr(h, func(hi ssa.Instruction) {
+			st, ok := hi.(*ssa.Store)
+			if !ok {
+				return
+			}
+			fa, ok := st.Addr.(*ssa.FieldAddr)
+			if !ok {
+				return
+			}
+			if _, tn2, fn2 := fieldOfAddr(fa); tn2 != tn || fn2 != fn {
+				return
+			}
+			if b, ok := st.Val.(*ssa.BinOp); ok && b.Op == token.SUB {
+				if k, ok := constInt(b.Y); ok && k == 1 {
+					deferIns = d
+				}
+			}
+		})
+	})
+	if deferIns == nil {
+		return false, "no deferred decrement of " + tn + "." + fn
+	}
+	bad := ""
+	forEachInstr(f, func(ins ssa.Instruction) {
+		switch x := ins.(type) {
+		case *ssa.Return:
+			after := instrDominates(enter, x) || blockReaches(enter.Block(), x.Block())
+			if after && !instrDominates(deferIns, x) {
+				bad = "a return after the increment is not preceded by the deferred decrement (" + p.InstrPos(x) + ")"
+			}
+		case *ssa.Call:
+			if x == enter {
+				return
+			}
+			if _, isB := x.Call.Value.(*ssa.Builtin); isB {
+				return
+			}
+			if cal := x.Call.StaticCallee(); cal != nil && !p.InModule(cal) {
+				return
+			}
+			// every other call into the module (the recursion points) comes after the guard
+			if !instrDominates(enter, x) {
+				bad = "a call precedes the depth check (" + p.InstrPos(x) + ")"
+			}
+		}
+	})
+	if bad != "" {
+		return false, bad
+	}
+	return true, tn + "." + fn + " (through " + enter.Call.StaticCallee().Name() + ")"
 }
 
 func isConstOrGlobalConst(v ssa.Value) bool {
